@@ -1397,7 +1397,7 @@ def check(r):
                 ex_total += len(ex)
                 p2, res2 = run_batch(r, ex, f"c02x{cap}{int(alt)}", workers)
                 problems += p2
-        r.coverage['exhaustive'] = dict(histories=ex_total, max_ops="5 (cap 2 in 2D, cap 3 in 3D), 4 (cap 2 in 3D, cap 3 in 2D)",
+        r.coverage['exhaustive_sweep'] = dict(histories=ex_total, max_ops="5 (cap 2 in 2D, cap 3 in 3D), 4 (cap 2 in 3D, cap 3 in 2D)",
                                         alphabet="I0 I1 I2 I3 Pnext Pforeign S (+ final G, T)",
                                         capacities=[2, 3], modes=['3D', '2D'])
         r.hygiene('Props/C02.v')
